@@ -265,3 +265,31 @@ def _chain(e: ast.AST) -> str | None:
         parts.append(e.id)
         return ".".join(reversed(parts))
     return None
+
+
+# ---------------------------------------------------------------------------------------------------- relations
+_FLIP = {">": "<", ">=": "<=", "<": ">", "<=": ">=", "==": "==", "!=": "!="}
+_NEG = {">": "<=", ">=": "<", "<": ">=", "<=": ">", "==": "!=", "!=": "=="}
+_OPS = {ast.Gt: ">", ast.GtE: ">=", ast.Lt: "<", ast.LtE: "<=", ast.Eq: "==", ast.NotEq: "!="}
+
+
+def relation(test: ast.AST, nz: "Normaliser"):
+    """`a OP b` (possibly under `not`) -> (Sym a-b, op) meaning `a - b OP 0`;  None if not a single comparison."""
+    neg = False
+    while isinstance(test, ast.UnaryOp) and isinstance(test.op, ast.Not):
+        neg = not neg
+        test = test.operand
+    if not (isinstance(test, ast.Compare) and len(test.ops) == 1 and type(test.ops[0]) in _OPS):
+        return None
+    op = _OPS[type(test.ops[0])]
+    if neg:
+        op = _NEG[op]
+    return nz.norm(test.left) - nz.norm(test.comparators[0]), op
+
+
+def same_relation(r, diff: "Sym", op: str) -> bool:
+    """Is relation r = (d, o) the same statement as `diff op 0` (allowing the mirrored form -diff flipped-op 0)?"""
+    if r is None:
+        return False
+    d, o = r
+    return (d == diff and o == op) or (d == -diff and o == _FLIP[op])
